@@ -74,3 +74,118 @@ def pathkey(p):
 def rand_bytes_path(rng):
     n = rng.randint(0, 8)
     return bytes(rng.choice(b"a/./-b \\\xff") for _ in range(n))
+
+
+# ------------------------------------------------------------------ stat listings
+MODE_DIR = 1 << 31
+MODE_SYMLINK = 1 << 27
+MODE_DEVICE = 1 << 26
+MODE_FIFO = 1 << 25
+MODE_CHAR = 1 << 21
+MODE_SETUID = 1 << 23
+MODE_SETGID = 1 << 22
+MODE_STICKY = 1 << 20
+MTIMES = [1700000000_000000000, 1700000000_000000001, 1700000001_000000000, 1600000000_123456789, 0, 1700000000_999999999]
+
+
+def rand_stat(rng, path, is_dir, small=True):
+    from .core import hx
+    st = {"p": hx(path), "uid": rng.choice([0, 0, 0, 1000, 65534]), "gid": rng.choice([0, 0, 0, 1000, 65534]),
+          "mt": rng.choice(MTIMES), "size": 0, "ln": "", "dmaj": 0, "dmin": 0}
+    perm = rng.choice([0o755, 0o644, 0o600, 0o777, 0o400, 0o750])
+    if is_dir:
+        st["mode"] = MODE_DIR | perm | (MODE_STICKY if rng.random() < 0.1 else 0) | (MODE_SETGID if rng.random() < 0.05 else 0)
+        return st
+    r = rng.random()
+    if r < 0.7:
+        st["mode"] = perm | (MODE_SETUID if rng.random() < 0.05 else 0)
+        st["size"] = rng.choice([0, 1, 5, 5, 100, 32768, 32769])
+    elif r < 0.85:
+        st["mode"] = MODE_SYMLINK | 0o777
+        st["ln"] = hx(rng.choice([b"a", b"../x", b"/abs", b"b/c"]))
+        st["size"] = len(st["ln"]) // 2
+    elif r < 0.92:
+        st["mode"] = MODE_FIFO | perm
+    else:
+        st["mode"] = MODE_DEVICE | (MODE_CHAR if rng.random() < 0.5 else 0) | perm
+        st["dmaj"] = rng.choice([1, 8])
+        st["dmin"] = rng.choice([0, 3, 5])
+    return st
+
+
+def rand_listing(rng, max_entries=25, max_depth=4, hardlinks=True):
+    ents = rand_tree(rng, max_entries, max_depth)
+    out = []
+    regs = []
+    from .core import hx
+    for p, d in ents:
+        st = rand_stat(rng, p, d)
+        if hardlinks and not d and st["mode"] < (1 << 19) and regs and rng.random() < 0.15:
+            src = rng.choice(regs)
+            st = dict(src)
+            st["p"] = hx(p)
+            st["ln"] = src["p"]
+            st["size"] = 0
+        elif not d and st["mode"] < (1 << 19):
+            regs.append(st)
+        out.append(st)
+    return out
+
+
+def mutate_listing(rng, lst):
+    """an edit script applied to a listing: returns a new valid listing"""
+    from .core import hx
+    ents = [dict(s) for s in lst]
+    n = rng.randint(0, 4)
+    for _ in range(n):
+        if not ents:
+            break
+        k = rng.randrange(len(ents))
+        e = ents[k]
+        op = rng.randrange(10)
+        isdir = e["mode"] & MODE_DIR != 0
+        if op == 0:      # touch
+            e["mt"] = rng.choice(MTIMES)
+        elif op == 1:    # chmod
+            e["mode"] = (e["mode"] & ~0o777) | rng.choice([0o755, 0o644, 0o700])
+        elif op == 2:    # chown
+            e["uid"] = rng.choice([0, 1000])
+            e["gid"] = rng.choice([0, 1000])
+        elif op == 3 and not isdir:   # rewrite
+            e["size"] = rng.choice([0, 1, 5, 100])
+        elif op == 4:    # delete (with subtree)
+            p = e["p"]
+            ents = [x for x in ents if x["p"] != p and not x["p"].startswith(p + "2f")]
+        elif op == 5:    # type swap
+            p = e["p"]
+            ents = [x for x in ents if not x["p"].startswith(p + "2f")]
+            for i, x in enumerate(ents):
+                if x["p"] == p:
+                    ents[i] = rand_stat(rng, bytes.fromhex(p), not isdir)
+        elif op == 6:    # add a sibling / child
+            base = bytes.fromhex(e["p"])
+            if isdir:
+                np = base + b"/" + name(rng, False)
+            else:
+                np = base + rng.choice([b"-", b".", b"0", b" x", b"z"])
+            if b"/" not in np[len(base) + 1:] and hx(np) not in [x["p"] for x in ents] and not np.endswith(b"/"):
+                ents.append(rand_stat(rng, np, rng.random() < 0.3))
+        elif op == 7 and not isdir:    # device renumber / link retarget
+            if e["mode"] & MODE_DEVICE:
+                e["dmin"] = rng.choice([0, 3, 5, 7])
+            elif e["mode"] & MODE_SYMLINK:
+                e["ln"] = hx(rng.choice([b"a", b"zz"]))
+        elif op == 8 and not isdir and e["mode"] < (1 << 19):  # hard-link regroup
+            regs = [x for x in ents if x["mode"] < (1 << 19) and not x["ln"] and pathkey(bytes.fromhex(x["p"])) < pathkey(bytes.fromhex(e["p"]))]
+            if regs and not any(x["ln"] == e["p"] for x in ents):
+                src = rng.choice(regs)
+                e.update({k2: src[k2] for k2 in ("mode", "uid", "gid", "mt")})
+                e["ln"] = src["p"]
+                e["size"] = 0
+    # drop hard links whose source vanished / changed type
+    regs = {x["p"] for x in ents if x["mode"] < (1 << 19) and not x["ln"]}
+    for x in ents:
+        if x["ln"] and x["mode"] < (1 << 19) and x["ln"] not in regs:
+            x["ln"] = ""
+    ents.sort(key=lambda x: pathkey(bytes.fromhex(x["p"])))
+    return ents
